@@ -575,5 +575,32 @@ def r2_9(run):
                     "calc_lambda_nikuradse_comp", "calc_medium_pressure_with_derivative", "get_branch_results_gas"}, floor=20, residual_only=True)
 
 
-RULES = [("R2.1", r2_1), ("R2.2", r2_2), ("R2.3", r2_3), ("R2.4", r2_4), ("R2.5", r2_5), ("R2.6", r2_6), ("R2.7", r2_7), ("R2.9", r2_9)]
+def r2_10(run):
+    """the velocity of the law is m / (rho * AREA): for every branch component the flow area written into the pit is the circle
+    area of the diameter D the same rows finally carry (a D that is set after AREA was computed leaves a stale area), and the
+    to-side temperature the fluid properties are evaluated at is that of the to node (shared with C09 R9.7)"""
+    ix = run.index
+    import math
+    n = 0
+    for c in ix.components():
+        if not ix.is_subclass(c, "BranchComponent"):
+            continue
+        m = ix.lookup_method(c, "create_pit_branch_entries")
+        run.analysed(m)
+        ki, k = phys.hook_summary(ix, c, "create_pit_branch_entries", {"option:transient": False, "any:*": True}, partial=True)
+        cols = phys.pit_cols(ki)
+        if "D" not in cols or "AREA" not in cols:
+            raise AnalysisError("%s.create_pit_branch_entries: D / AREA not summarised (%s)" % (c.name, k.error))
+        n += 1
+        d = phys.tonum(cols["D"])
+        want = d * d * g(Poly.sym("pi")) * g(Poly.const(0.25))
+        check_equal(run, "area|%s" % c.name, cols["AREA"], want,
+                    "AREA of %s rows is pi/4 * D^2 of the diameter finally stored for the same rows" % c.name, run.where(m, m.node))
+    run.ob("area|branch-components", n >= 10, "branch components summarised: %d" % n, "component_models")
+    from .c09 import r9_7
+    r9_7(run)
+    run.floor(12)
+
+
+RULES = [("R2.1", r2_1), ("R2.2", r2_2), ("R2.3", r2_3), ("R2.4", r2_4), ("R2.5", r2_5), ("R2.6", r2_6), ("R2.7", r2_7), ("R2.9", r2_9), ("R2.10", r2_10)]
 THOROUGH = [("R2.8", r2_8)]
